@@ -124,7 +124,7 @@ Definition subin_s (R : poly) (v : T) : poly :=
   match R with [] => [neg_ v] | r0 :: R' => sub_ r0 v :: R' end.
 Definition s_sub (v : T) (P : poly) : poly :=
   match P with
-  | [] => [neg_ v]
+  | [] => [v]                                 (* REPAIRED (frag/C08.fix-9.diff): the code stores -Val *)
   | p0 :: P' => sub_ v p0 :: neg P'           (* neg(R,P); R[0] = Val - P[0]: REPAIRED (frag/C08.fix-1.diff; the code adds) *)
   end.
 
